@@ -1,5 +1,7 @@
-//! "oracle": what Rust std answers for f64::from_str and f64's Display (the model's oracles)
+//! "oracle": what Rust std / unicode-segmentation answer for the model's oracles:
+//! f64::from_str, f64's Display, char::to_uppercase / to_lowercase, extended grapheme clusters
 use serde_json::{json, Value as J};
+use unicode_segmentation::UnicodeSegmentation;
 
 pub fn run(req: &J) -> J {
     let parses: Vec<J> = req["parse"].as_array().map(|a| a.iter().map(|s| {
@@ -8,5 +10,11 @@ pub fn run(req: &J) -> J {
     let shows: Vec<J> = req["show"].as_array().map(|a| a.iter().map(|b| {
         json!(f64::from_bits(b.as_str().unwrap().parse::<u64>().unwrap()).to_string())
     }).collect()).unwrap_or_default();
-    json!({"parse": parses, "show": shows})
+    let cases: Vec<J> = req["chars"].as_str().map(|s| s.chars().map(|c| {
+        json!([c.to_string(), c.to_uppercase().collect::<String>(), c.to_lowercase().collect::<String>()])
+    }).collect()).unwrap_or_default();
+    let graphs: Vec<J> = req["graphemes"].as_array().map(|a| a.iter().map(|s| {
+        json!(UnicodeSegmentation::graphemes(s.as_str().unwrap(), true).collect::<Vec<&str>>())
+    }).collect()).unwrap_or_default();
+    json!({"parse": parses, "show": shows, "chars": cases, "graphemes": graphs})
 }
